@@ -977,8 +977,12 @@ def verify(E, c, fnode=None, body=None, module=None):
             for exc, cond in c.raises:
                 E.goal(s1, "post:no-%s-condition-on-normal-exit" % exc, z3.Not(cond(pre_at(E, s1, args, h0))), "post", None)
             if c.ensures:
+                # clauses are proved in order; a proved clause may be used as a
+                # hypothesis (cut) for the later ones of the same exit
                 for nm, f in c.ensures(post):
                     E.goal(s1, "post:%s" % nm, f, "post", None)
+                    if getattr(c, "cut", True):
+                        s1.assume(f)
             frame_goals(E, c, s1, args, h0)
         elif o.kind == "raise":
             s1.trace.append("exit:raise:%s" % o.exc)
